@@ -676,7 +676,12 @@ def run(repo: Repo) -> Result:
     )
     res.not_decided = "equality of the rendered set with a reference violating set on every graph (needs the values the searches compute)."
     res.trusted_base = ["engine search model (rules/search.py)", "abstract interpreter rules/c03_absint.py (joins over-approximate; unknown constructs give 'undecided', never a pass)", "guard implication"]
-    run_r1(repo, res)
+    try:
+        run_r1(repo, res)
+    except AnalysisError as e:
+        # the search model gave no verdict: R1 is undecided, R2 - R6 do not depend on it and are still decided (a violation found
+        # by them is reported; without one the check ends undecided, never silent)
+        res.undecide("C03.R1", "pytestarch/eval_structure/breadth_first_searches.py::search model", str(e), "")
     run_r2(repo, res)
     run_r3_r4(repo, res)
     run_r5(repo, res)
